@@ -24,7 +24,7 @@ theorem C07_generated_supported :
 /-- The machine for a call on the live object `o` in state `s`; `gf` / `sf`: the store read / write of this call fails. -/
 def mk (s : St) (o : Obj) (gf sf : Bool) : M :=
   { store := s.store, interval := o.interval, next := o.next, reserved := o.reserved, locals := fun _ => 0,
-    getFail := gf, setFail := sf }
+    getFail := gf, setFail := sf, trace := [] }
 
 def objOf (m : M) : Obj := { interval := m.interval, next := m.next, reserved := m.reserved }
 
@@ -46,9 +46,9 @@ theorem C07_generated_release (s : St) (o : Obj) (hobj : s.obj = some o) (sf : B
 /-- `NewSequence(store, key, i)` for `i > 0`: no store access, a fresh object without a lease — the model's `.new i`. -/
 theorem C07_generated_new (s : St) (i : Nat) (hi : 0 < i) (hi64 : i < two64) (junk : M) :
     let r := runMethod fn_NewSequence fn_Sequence_update
-      { junk with store := s.store, locals := fun j => if j = 2 then i else 0 }
+      { junk with store := s.store, locals := fun j => if j = 2 then i else 0, trace := [] }
     (step s (.new i)).1.store = r.1.store ∧ (step s (.new i)).1.obj = some (objOf r.1) ∧
-      (step s (.new i)).2 = .ok ∧ r.2 = some [0, 0] := by
+      (step s (.new i)).2 = .ok ∧ r.2 = some [0, 0] ∧ r.1.trace = [] := by
   have hne : ¬ i = 0 := by omega
   have h0 : u64 0 = 0 := rfl
   simp [runMethod, fn_NewSequence, execL, execS, execC, evalC, evalE, M.setLocal, M.setFld, M.fld, objOf, step,
@@ -58,14 +58,18 @@ theorem two64_val : two64 = 18446744073709551616 := rfl
 
 /-- What the translated `update()` computes, in closed form (the lease of the model, the model's case distinction). -/
 theorem update_spec (st : Option Nat) (iv nx rs : Nat) (loc : Nat → Nat) (gf sf : Bool)
-    (hst : ∀ v, st = some v → v < two64) :
-    let r := runUpdate fn_Sequence_update ⟨st, iv, nx, rs, loc, gf, sf⟩
+    (tr : List (Bool × Bool × Option Nat)) (hst : ∀ v, st = some v → v < two64) :
+    let r := runUpdate fn_Sequence_update ⟨st, iv, nx, rs, loc, gf, sf, tr⟩
     let m := st.getD 0
     r.1.interval = iv ∧
-    (if gf then r.1.store = st ∧ r.1.next = nx ∧ r.1.reserved = rs ∧ r.2 = 2
-     else if lease m iv = 0 then r.1.store = st ∧ r.1.next = m ∧ r.1.reserved = rs ∧ r.2 = 3
-     else if sf then r.1.store = st ∧ r.1.next = m ∧ r.1.reserved = rs ∧ r.2 = 2
-     else r.1.store = some (m + lease m iv) ∧ r.1.next = m ∧ r.1.reserved = m + lease m iv ∧ r.2 = 0) := by
+    (if gf then r.1.store = st ∧ r.1.next = nx ∧ r.1.reserved = rs ∧ r.2 = 2 ∧ r.1.trace = tr ++ [(false, true, st)]
+     else if lease m iv = 0 then
+       r.1.store = st ∧ r.1.next = m ∧ r.1.reserved = rs ∧ r.2 = 3 ∧ r.1.trace = tr ++ [(false, false, st)]
+     else if sf then
+       r.1.store = st ∧ r.1.next = m ∧ r.1.reserved = rs ∧ r.2 = 2 ∧
+         r.1.trace = tr ++ [(false, false, st), (true, true, st)]
+     else r.1.store = some (m + lease m iv) ∧ r.1.next = m ∧ r.1.reserved = m + lease m iv ∧ r.2 = 0 ∧
+         r.1.trace = tr ++ [(false, false, st), (true, false, some (m + lease m iv))]) := by
   have h0 : u64 0 = 0 := rfl
   cases gf with
   | true =>
@@ -148,8 +152,8 @@ theorem C07_generated_next (s : St) (o : Obj) (hobj : s.obj = some o) (gf sf : B
       simp [runMethod, fn_Sequence_Next, execL, execS, execC, evalC, evalE, M.setLocal, M.setFld, M.fld, mk, objOf,
         step, hobj, hasLease, hl, hl', hn, h0]
   · have hl' : o.reserved ≤ o.next := by omega
-    have hspec := update_spec s.store o.interval o.next o.reserved (fun _ => 0) gf sf hst
-    obtain ⟨r, hr⟩ : ∃ r, runUpdate fn_Sequence_update ⟨s.store, o.interval, o.next, o.reserved, fun _ => 0, gf, sf⟩ = r :=
+    have hspec := update_spec s.store o.interval o.next o.reserved (fun _ => 0) gf sf [] hst
+    obtain ⟨r, hr⟩ : ∃ r, runUpdate fn_Sequence_update ⟨s.store, o.interval, o.next, o.reserved, fun _ => 0, gf, sf, []⟩ = r :=
       ⟨_, rfl⟩
     simp only [hr] at hspec
     obtain ⟨hiv, hcase⟩ := hspec
@@ -158,14 +162,14 @@ theorem C07_generated_next (s : St) (o : Obj) (hobj : s.obj = some o) (gf sf : B
     cases gf with
     | true =>
       simp only [if_true] at hcase
-      obtain ⟨h1, h2, h3, h4⟩ := hcase
+      obtain ⟨h1, h2, h3, h4, h5⟩ := hcase
       simp [runMethod, fn_Sequence_Next, execL, execS, execC, evalC, evalE, M.setLocal, M.setFld, M.fld, mk, objOf,
         step, hobj, hasLease, hl, hl', h0, hr, h1, h2, h3, h4, hiv]
     | false =>
       simp only [Bool.false_eq_true, if_false] at hcase
       by_cases hz : lease (mark s) o.interval = 0
       · simp only [hz, if_true] at hcase
-        obtain ⟨h1, h2, h3, h4⟩ := hcase
+        obtain ⟨h1, h2, h3, h4, h5⟩ := hcase
         cases sf <;>
           simp [runMethod, fn_Sequence_Next, execL, execS, execC, evalC, evalE, M.setLocal, M.setFld, M.fld, mk, objOf,
             step, hobj, hasLease, hl, hl', h0, hr, h1, h2, h3, h4, hiv, hz]
@@ -173,12 +177,12 @@ theorem C07_generated_next (s : St) (o : Obj) (hobj : s.obj = some o) (gf sf : B
         cases sf with
         | true =>
           simp only [if_true] at hcase
-          obtain ⟨h1, h2, h3, h4⟩ := hcase
+          obtain ⟨h1, h2, h3, h4, h5⟩ := hcase
           simp [runMethod, fn_Sequence_Next, execL, execS, execC, evalC, evalE, M.setLocal, M.setFld, M.fld, mk, objOf,
             step, hobj, hasLease, hl, hl', h0, hr, h1, h2, h3, h4, hiv, hz]
         | false =>
           simp only [Bool.false_eq_true, if_false] at hcase
-          obtain ⟨h1, h2, h3, h4⟩ := hcase
+          obtain ⟨h1, h2, h3, h4, h5⟩ := hcase
           have hm64 : mark s < two64 := by
             unfold mark; cases hs : s.store with
             | none => unfold two64; simp
@@ -188,6 +192,46 @@ theorem C07_generated_next (s : St) (o : Obj) (hobj : s.obj = some o) (gf sf : B
             unfold u64add; apply Nat.mod_eq_of_lt; unfold cap at this; unfold two64; omega
           simp [runMethod, fn_Sequence_Next, execL, execS, execC, evalC, evalE, M.setLocal, M.setFld, M.fld, mk, objOf,
             step, hobj, hasLease, hl, hl', h0, hr, h1, h2, h3, h4, hiv, hz, hn, update]
+
+/-- **The crash points of the model are the store-call boundaries of the source.**  The interpreted `Next` / `Release`
+(no store fault) make exactly these store calls, and the store cell after each call is the store cell of the model's crash
+step at that boundary: a `Next` with a lease and a `Release` without one make none (the call completes — `crash read|write`
+/ `crash relwrite` then only abandon the object); a renewing `Next` makes `Get` (cell unchanged = `crash read`) and then `Set`
+(cell = `crash write`) — the write comes before `seq.reserved` and before any number of the new lease is handed out; an
+exhausted `Next` makes only the `Get`; a `Release` with a lease makes one `Set` (cell = `crash relwrite`). -/
+theorem C07_generated_crash_points (s : St) (o : Obj) (hobj : s.obj = some o)
+    (hst : ∀ v, s.store = some v → v < two64) :
+    let rn := runMethod fn_Sequence_Next fn_Sequence_update (mk s o false false)
+    let rr := runMethod fn_Sequence_Release fn_Sequence_update (mk s o false false)
+    (hasLease o = true → rn.1.trace = [] ∧ rr.1.trace = [(true, false, (step s (.crash .relWrite)).1.store)]) ∧
+    (hasLease o = false → rr.1.trace = []) ∧
+    (hasLease o = false → lease (mark s) o.interval ≠ 0 →
+      rn.1.trace = [(false, false, (step s (.crash .nextRead)).1.store),
+                    (true, false, (step s (.crash .nextWrite)).1.store)]) ∧
+    (hasLease o = false → lease (mark s) o.interval = 0 → rn.1.trace = [(false, false, s.store)]) := by
+  have h0 : u64 0 = 0 := rfl
+  by_cases hl : o.next < o.reserved
+  · have hl' : ¬ o.reserved ≤ o.next := by omega
+    simp [runMethod, fn_Sequence_Next, fn_Sequence_Release, execL, execS, execC, evalC, evalE, M.setLocal, M.setFld,
+      M.fld, mk, step, hobj, hasLease, hl, hl', h0, abandon_store]
+  · have hl' : o.reserved ≤ o.next := by omega
+    have hspec := update_spec s.store o.interval o.next o.reserved (fun _ => 0) false false [] hst
+    obtain ⟨r, hr⟩ : ∃ r, runUpdate fn_Sequence_update ⟨s.store, o.interval, o.next, o.reserved, fun _ => 0, false, false, []⟩ = r :=
+      ⟨_, rfl⟩
+    simp only [hr] at hspec
+    obtain ⟨hiv, hcase⟩ := hspec
+    have hmark : s.store.getD 0 = mark s := rfl
+    rw [hmark] at hcase
+    simp only [Bool.false_eq_true, if_false] at hcase
+    by_cases hz : lease (mark s) o.interval = 0
+    · simp only [hz, if_true] at hcase
+      obtain ⟨h1, h2, h3, h4, h5⟩ := hcase
+      simp [runMethod, fn_Sequence_Next, fn_Sequence_Release, execL, execS, execC, evalC, evalE, M.setLocal, M.setFld,
+        M.fld, mk, step, hobj, hasLease, hl, hl', h0, hr, h1, h2, h3, h4, h5, hiv, hz]
+    · simp only [hz, if_false] at hcase
+      obtain ⟨h1, h2, h3, h4, h5⟩ := hcase
+      simp [runMethod, fn_Sequence_Next, fn_Sequence_Release, execL, execS, execC, evalC, evalE, M.setLocal, M.setFld,
+        M.fld, mk, step, hobj, hasLease, hl, hl', h0, hr, h1, h2, h3, h4, h5, hiv, hz, abandon_store]
 
 /-- The range hypotheses of `C07_generated_next` hold in every reachable state (this is `C07_no_wrap`): the theorems above
 apply to every call the sequential machine can ever make. -/
